@@ -625,6 +625,17 @@ class BuiltinMixin:
         "cls_is(obj, 'qualified.Class'): exact class"
         return [(st, VBool(z3.And(args[0].t != 0, self.cls_of(args[0]) == self.class_id(args[1].conc()))))]
 
+    def bi_repo(self, args, kw, st, cx, node):
+        "repo('qualified.name'): the real function / class of /repo (lemma clients call the real code through it)"
+        qn = args[0].conc()
+        found = self.repo.find(qn)
+        if found is None:
+            raise Unsupported("repo(%s): not found" % qn)
+        kind, nd, mod, ci = found
+        if kind == "class":
+            return [(st, self.vtype(qn))]
+        return [(st, VFunc("repo", nd, env=mod, qn=qn))]
+
     def bi_cls(self, args, kw, st, cx, node):
         "cls('qualified.Class'): the class object (for isinstance in contract expressions)"
         return [(st, self.vtype(self.repo.canonical(args[0].conc())))]
@@ -669,6 +680,22 @@ class BuiltinMixin:
 
     def bi_seq_eq(self, args, kw, st, cx, node):
         return [(st, VBool(list_eq(args[0], args[1])))]
+
+    def bi_keys_within(self, args, kw, st, cx, node):
+        "keys_within(d, [k1, ...]): every key of the string-keyed dictionary d is one of the listed (constant) keys"
+        d, ks = args
+        if not (isinstance(d, VRec) and isinstance(d.sort, TKDict)) or not isinstance(ks, VTuple):
+            raise Unsupported("keys_within needs a keyed dictionary and a literal list of keys")
+        allowed = []
+        for k in ks.items:
+            c = k.conc() if isinstance(k, VStr) else None
+            if c is None:
+                raise Unsupported("keys_within: keys must be string constants")
+            allowed.append(c)
+        cs = [z3.Not(d.sort.get(d.t, "p_" + k)) for k in d.sort.keys if k not in allowed]
+        ok = d.sort.get(d.t, "other_key")
+        cs.append(z3.Implies(d.sort.get(d.t, "other"), z3.Or(*[ok == z3.StringVal(a) for a in allowed if a not in d.sort.keys]) if any(a not in d.sort.keys for a in allowed) else z3.BoolVal(False)))
+        return [(st, VBool(z3.And(*cs)))]
 
     def bi_prefix_of(self, args, kw, st, cx, node):
         a, b = args
